@@ -7,9 +7,9 @@ from cmdline_check import run_cmdline_property, run_tree_groups, merge_cov
 def families(tier):
     if tier == "quick":
         return D.cmd_family(SEED + 80, 40, depth=2, maxlen=4, budget=4000) + D.cmd_family(SEED + 81, 10, depth=3, maxlen=4, budget=4000) + \
-            D.prepos_family(SEED + 82, 12, maxlen=4, budget=4000)
+            D.prepos_family(SEED + 82, 12, maxlen=4, budget=4000) + D.subver_family(SEED + 84, 8, maxlen=3)
     return D.cmd_family(SEED + 80, 150, depth=2, maxlen=5, budget=40000) + D.cmd_family(SEED + 81, 60, depth=3, maxlen=5, budget=40000) + \
-        D.prepos_family(SEED + 82, 36, maxlen=5, budget=40000)
+        D.prepos_family(SEED + 82, 36, maxlen=5, budget=40000) + D.subver_family(SEED + 84, 20, maxlen=4)
 
 
 def run(v):
